@@ -474,10 +474,13 @@ func (c *Ctx) ruleTypeInfoHelpers() {
 						bad = short(P.termDesc(r, false))
 						continue
 					}
-					if P.RootsAny(call.Call.Args[0], func(a ssa.Value) bool { return P.CallTo(a, "(*go/types.Pointer).Elem") != nil }) {
-						sawElem = true
-					} else {
-						sawPlain = true
+					// one Unalias call may serve both origins: Unalias(t) with t the type or, behind a pointer, its element
+					for _, a := range P.Resolve(call.Call.Args[0]) {
+						if P.CallTo(a, "(*go/types.Pointer).Elem") != nil {
+							sawElem = true
+						} else {
+							sawPlain = true
+						}
 					}
 				}
 				switch {
